@@ -3339,6 +3339,41 @@ int  bufr_dataset_compressible( BUFR_Dataset *dts )
             }
          }
       }
+/*
+ * the increment width field has 6 bits: a 64-bit column whose values span the whole 
+ * range would need increments of 64 bits
+ */
+   for (j = 0; j < count ; j++ )
+      {
+      uint64_t  imin, imax, ival, missing;
+      int       first = 1;
+
+      coderef = bufr_datasubset_get_descriptor( subsetref, j );
+      if ((coderef->flags & FLAG_SKIPPED)||(coderef->encoding.nbits < 64)) 
+         continue;
+      if ((coderef->encoding.type != TYPE_NUMERIC)&&(coderef->encoding.type != TYPE_CODETABLE)&&
+          (coderef->encoding.type != TYPE_FLAGTABLE))
+         continue;
+      missing = bufr_missing_ivalue( coderef->encoding.nbits );
+      imin = imax = 0;
+      for (i = 0; i < nb_subsets ; i++)
+         {
+         subset = bufr_get_datasubset( dts, i );
+         code = bufr_datasubset_get_descriptor( subset, j );
+         ival = bufr_value2bits( code );
+         if (ival == missing) continue;
+         if (first)
+            {
+            imin = imax = ival;
+            first = 0;
+            continue;
+            }
+         if (ival < imin) imin = ival;
+         if (ival > imax) imax = ival;
+         }
+      if ((imax - imin) >= 0x7fffffffffffffffULL)
+         return 0;
+      }
    return 1;
    }
 
